@@ -112,14 +112,16 @@ def run(ctx):
                 growth["%s/%s" % (fam, dec)] = {
                     "sizes": [p["bytes"] for p in pts], "per_call_us": [round(p["wall_us"], 1) for p in pts],
                     "growth_exponents": exps}
-    if seed_total == 0 or not decoders:
+    if not decoders:
         raise vlib.Broken("the mutate replayer reported no decoder calls")
-    if seed_ok * 2 < seed_total:
-        raise vlib.Broken("only %d of %d unmutated seeds were accepted by the decoder the specification names (%s): "
-                          "the mutation families would be vacuous" % (seed_ok, seed_total, rejected[:5]))
-    silent = sorted(n for n, d in decoders.items() if d["ok"] == 0 and n != "rtmp.msg.t8")  # t8: a type DecodeMessage never decodes
-    if silent:
-        raise vlib.Broken("decoders that never accepted any input (the seeds do not reach them): %s" % silent)
+    if not ctx.fail_results:
+        # vacuity guards (a run that ended early on a stall has not seen every seed)
+        if seed_ok * 2 < seed_total or seed_total == 0:
+            raise vlib.Broken("only %d of %d unmutated seeds were accepted by the decoder the specification names (%s): "
+                              "the mutation families would be vacuous" % (seed_ok, seed_total, rejected[:5]))
+        silent = sorted(n for n, d in decoders.items() if d["ok"] == 0 and n != "rtmp.msg.t8")  # t8: a type DecodeMessage never decodes
+        if silent:
+            raise vlib.Broken("decoders that never accepted any input (the seeds do not reach them): %s" % silent)
     # judge() counted one evaluation per case; the evidence counts calls into the library
     ctx.evaluations += calls + enum_calls + scale_calls - len(ctx.load_cases(cases)) - len(ctx.load_cases(ecases)) - len(ctx.load_cases(scases))
     ctx.notes["decoder_calls"] = dict(sorted(decoders.items()))
